@@ -96,11 +96,12 @@ def dangling_links(block):
                                   "meta": dict(it["meta"])})
     # version tags for repeated atoms inside one link: first term gets the highest tag
     for l in links:
-        cnt = Counter(tuple(i["atoms"]) for i in l["inter"])
+        # repeated atoms *within one section* are distinct terms: the first gets the highest tag
+        cnt = Counter((i["sec"], tuple(i["atoms"])) for i in l["inter"])
         for i in l["inter"]:
-            t = cnt[tuple(i["atoms"])]
+            t = cnt[(i["sec"], tuple(i["atoms"]))]
             i["meta"]["version"] = t
-            cnt[tuple(i["atoms"])] = t - 1
+            cnt[(i["sec"], tuple(i["atoms"]))] = t - 1
     return links
 
 
